@@ -56,6 +56,12 @@ int main() {
             if (!mesh) { printf("NEAR -\n"); continue; }
             bool inside; int face; Vec2 uv; Vec3 q = mesh->findNearestPoint(p, inside, face, uv);
             printf("NEAR %.17g %d %d", (q - p).normSqr(), inside ? 1 : 0, face); pv(q); printf("\n");
+        } else if (cmd == "NF") {       // per-face routine TriangleMesh::findNearestPointToFace for EVERY face of the mesh
+            build(); Vec3 p; is >> p[0] >> p[1] >> p[2]; printf("%s\n", line.c_str());
+            if (!mesh) { printf("NFACE -\n"); continue; }
+            printf("NFACE");
+            for (int f = 0; f < mesh->getNumFaces(); ++f) { Vec2 uv; Vec3 q = mesh->findNearestPointToFace(p, f, uv); printf(" %.17g", (q - p).normSqr()); }
+            printf("\n");
         } else if (cmd == "R") {
             build(); Vec3 o, d; is >> o[0] >> o[1] >> o[2] >> d[0] >> d[1] >> d[2]; printf("%s\n", line.c_str());
             if (!mesh) { printf("RAY -\n"); continue; }
